@@ -83,3 +83,72 @@ Theorem C16_certified_matrices_of_every_size : forall rec variant kin m n M rc v
   (variant = 0 -> v = 1 -> kout = k).
 Proof. exact EquiCertProofs.judge_equi_cert_sound. Qed.
 Print Assumptions C16_certified_matrices_of_every_size.
+
+(* ---------- the judge accepts EXACTLY the records that satisfy its specification: besides soundness (above) also completeness,
+   i.e. a record of a correct answer is never rejected (JudgeComplete1.v) ---------- *)
+From Cmr Require JudgeComplete1.
+Theorem C16_judge_equimod_accepts_exactly_the_specification :
+    forall (rec : list Z) (variant kin : Z) (m n : nat) (M : mat) (rc v kout : Z) (rest : list Z),
+    EquiProofs.equimod_input rec = Some (variant, kin, (m, n, M), rc, v, kout, rest) ->
+    EquiModel.judge_equimod rec = 0%Z <-> JudgeComplete1.equimod_spec variant kin m n M rc v kout.
+Proof. exact JudgeComplete1.judge_equimod_iff. Qed.
+Print Assumptions C16_judge_equimod_accepts_exactly_the_specification.
+Theorem C16_judge_equi_cert_accepts_exactly_the_specification :
+    forall (rec : list Z) (variant kin : Z) (m n : nat) (M : mat) (rc v kout : Z) 
+    (d : list Z) (ops : list EquiCertModel.rowop) (xr xc : nat) (X : mat) (B : list nat)
+    (w : GraphModel.witness) (rest : list Z),
+    EquiCertModel.equi_cert_input rec =
+    Some (variant, kin, (m, n, M), rc, v, kout, d, ops, (xr, xc, X), B, w, rest) ->
+    variant = 0%Z \/ variant = 2%Z ->
+    EquiCertModel.equi_cert_check m n M d ops xr xc X B w = true ->
+    rc <> 5%Z ->
+    EquiCertModel.judge_equi_cert rec = 0%Z <->
+    JudgeComplete1.equi_cert_spec variant kin m n M rc v kout d.
+Proof. exact JudgeComplete1.judge_equi_cert_iff. Qed.
+Print Assumptions C16_judge_equi_cert_accepts_exactly_the_specification.
+
+(* ---------- through the translator: the C text of gcdExt (extended Euclid of the int64 row reduction; while loop and out-pointers
+   translated by tools/c2gallina.py into LeafGen.c_gcdExt) has no undefined behaviour on every pair of int64 values except INT64_MIN,
+   terminates (fuel 200 provably suffices), returns the gcd with Bezout cofactors in range, and the cofactors vanish exactly in the
+   stated cases (the header comment 't != 0' of the C function is wrong when a properly divides b) ---------- *)
+From Cmr Require LeafGen LeafModel GcdProofs.
+Theorem C16_gcdExt_is_defined_and_computes_bezout :
+    forall a b : Z,
+    GcdProofs.int64_sym a ->
+    GcdProofs.int64_sym b ->
+    exists s t : Z,
+    LeafGen.c_gcdExt 200 a b = Some (Z.gcd a b, s, t) /\
+    (s * a + t * b)%Z = Z.gcd a b /\
+    GcdProofs.int64_sym s /\
+    GcdProofs.int64_sym t /\
+    (t = 0%Z <-> b = 0%Z \/ a <> 0%Z /\ (Z.abs a < Z.abs b)%Z /\ (a | b)%Z) /\
+    (s = 0%Z <-> b <> 0%Z /\ (b | a)%Z).
+Proof. exact GcdProofs.gcdExt_spec. Qed.
+Print Assumptions C16_gcdExt_is_defined_and_computes_bezout.
+Theorem C16_gcdExt_terminates :
+    forall a b : Z,
+    GcdProofs.int64_sym a ->
+    GcdProofs.int64_sym b -> forall f : nat, (200 <= f)%nat -> LeafGen.c_gcdExt f a b = LeafGen.c_gcdExt 200 a b.
+Proof. exact GcdProofs.gcdExt_fuel_ge. Qed.
+Print Assumptions C16_gcdExt_terminates.
+Theorem C16_gcdExt_zero_cofactor :
+    forall a b : Z,
+    GcdProofs.int64_sym a ->
+    GcdProofs.int64_sym b ->
+    a <> 0%Z ->
+    b = 0%Z \/ (Z.abs a < Z.abs b)%Z /\ (a | b)%Z ->
+    LeafGen.c_gcdExt 200 a b = Some (Z.abs a, Z.sgn a, 0%Z).
+Proof. exact GcdProofs.gcdExt_t_zero. Qed.
+Print Assumptions C16_gcdExt_zero_cofactor.
+Theorem C16_gcdExt_leaf_judge_specification :
+    forall a b : Z,
+    GcdProofs.int64_sym a ->
+    GcdProofs.int64_sym b ->
+    exists g s t : Z,
+    LeafModel.leaf_gen 11 [a; b] = Some (Some g) /\
+    LeafModel.leaf_gen 12 [a; b] = Some (Some s) /\
+    LeafModel.leaf_gen 13 [a; b] = Some (Some t) /\
+    LeafModel.leaf_spec 11 [a; b] g = true /\
+    LeafModel.leaf_spec 12 [a; b] s = true /\ LeafModel.leaf_spec 13 [a; b] t = true.
+Proof. exact GcdProofs.leaf_spec_gcdExt. Qed.
+Print Assumptions C16_gcdExt_leaf_judge_specification.
